@@ -204,6 +204,11 @@ def cook(i):
         return harness.run(create_engine(sdl, schema_name="bundle%d" % i, modules=[MODULE_DEF]))
     # ... and the other way of building an engine
     from tartiflette import Engine
+    if i % 4 == 0:
+        # the constructor names *another* bundle's schema and cook() overrides it (what cook() is given wins, as for every other setting)
+        eng = Engine(sdl, schema_name="bundle%d" % (i + 1), modules=[MODULE_DEF, "vf.c17_module_plain"])
+        harness.run(eng.cook(schema_name="bundle%d" % i))
+        return eng
     eng = Engine(sdl, schema_name="bundle%d" % i, modules=[MODULE_DEF, "vf.c17_module_plain"])
     harness.run(eng.cook())
     return eng
